@@ -41,8 +41,13 @@ claim("C16", "exploration", E1,
       "Trusted: the harness' reading of the Storable contract; divergences are injected through the density (recoverable error / huge logp drop); one diagonal Gaussian target per dimension.",
       "bounded-exhaustive enumeration of the option lattice x fault placements on real chains", "4/C16")
 
+claim("C14", "exploration", E1,
+      "Scenario enumeration over the storage trait seam (StorageConfig/TraceStorage/ChainStorage): backends {HashMap, ndarray, Arrow, Zarr sync memory+filesystem, Zarr async, CSV} x presets x (a warmup, b sampling rows) 0..=3(4) x chains {1,2} x store_warmup x {plain, flush after every record, inspect after every record} x aborted prefixes x every subset of diverging draws (a+b <= 4) x chunk sizes; rows produced by real chains over a model with variables of every type x shape and special values; every backend is read back with a fresh reader and compared cell by cell with the recorded reference trace (so backends agree transitively).",
+      "Trusted: the zarrs/arrow/csv readers used for read-back; HashMap iteration order inside the Zarr writers is not owned - each Zarr scenario is repeated 3 (8) times with fresh hash keys, which is repetition, not enumeration; preallocated Zarr rows holding fill values are not counted as stored warmup draws.",
+      "bounded-exhaustive scenario enumeration on the real back ends with a recording reference backend (differential oracle)", "4/C14")
+
 claim("C19", "exploration", E1,
-      "Six presets x default and every single-field substitution over a per-type alphabet (thorough: all pairs): JSON round trip is a fixed point that keeps every field (Debug field list vs JSON keys), and chains built from the round-tripped settings are bit-identical. The trace-metadata clause (sampler_settings attribute) is checked with the Zarr backend under C14.",
+      "Six presets x default and every single-field substitution over a per-type alphabet (thorough: all pairs): JSON round trip is a fixed point that keeps every field (Debug field list vs JSON keys), and chains built from the round-tripped settings are bit-identical. The trace-metadata clause: the sampler_settings attribute written by the sync and async Zarr writers for every substituted settings value, read back with a fresh reader, equals the settings JSON.",
       "Trusted: serde_json; non-finite floats are outside the quantifier; chains are compared on one 3-d Gaussian for 30 (NUTS) / 10 (MCLMC) draws with a 200k-evaluation watchdog.",
       "bounded-exhaustive enumeration of field substitutions, differential oracle on real chains", "4/C19")
 
